@@ -598,6 +598,7 @@ fn main() {
         "c08l" => limits_table(&args),
         "c17" => if args.str("svc", "local") == "ipc" { drops::campaign::<iceoryx2::service::ipc::Service>(&args, "ipc") } else { drops::campaign::<iceoryx2::service::local::Service>(&args, "local") },
         "c08r" => rr_campaign(&args, "C08"),
+        "c02r" => rr_campaign(&args, "C02"),
         "warmup" => return,
         other => {
             eprintln!("unknown sub command {:?}", other);
